@@ -19,6 +19,8 @@ from ..core import where_of, trace_of
 from ..interp import fmt, contains
 from ..model import AnalysisError, ClassInfo
 from .. import q
+import ast
+from .. import roles
 from ..roles import std_inline, bound, is_identity
 
 SELF = ("param", "self")
@@ -237,8 +239,25 @@ def _own_helpers(cls):
         # small private module-level helpers next to the class (e.g. a late-import accessor)
         if callee.owner is None and callee.parent is None and callee.module is cls.module and callee.name.startswith("_"):
             return True
+        # name lookup shared between the mix-in and the bound callable may live in a module-level function
+        if callee.owner is None and callee.parent is None and not callee.name.startswith("f_") and roles.std_inline(callee, ev, path) is not False and _reads_attrs_only(callee):
+            return True
         return False
     return pol
+
+
+def _reads_attrs_only(fi):
+    """a module-level function that only inspects its arguments (hasattr / getattr / comparisons): safe to inline anywhere"""
+    for n in ast.walk(fi.node):
+        if isinstance(n, ast.Call):
+            f = n.func
+            if not (isinstance(f, ast.Name) and f.id in ("hasattr", "getattr", "isinstance", "len")):
+                return False
+        if isinstance(n, (ast.Global, ast.Nonlocal, ast.Yield, ast.YieldFrom, ast.With, ast.Try, ast.Raise)):
+            return False
+        if isinstance(n, (ast.Attribute, ast.Subscript, ast.Name)) and isinstance(n.ctx, (ast.Store, ast.Del)) and not isinstance(n, ast.Name):
+            return False
+    return True
 
 
 def _stored_fields(ctx, ci, param):
